@@ -338,7 +338,16 @@ func (c *Ctx) builderParam(fn *ssa.Function, idx int, seen map[string]bool) bool
 					continue
 				}
 				sites++
-				switch a := call.Common().Args[idx].(type) {
+				arg := call.Common().Args[idx]
+				// a variable that lives in a cell: what it certainly holds at the call
+				if ld, isLd := arg.(*ssa.UnOp); isLd && ld.Op == token.MUL {
+					if cell, isCell := ld.X.(*ssa.Alloc); isCell && !isAggregate(cell) {
+						if st := cellStoreBefore(cell, ld); st != nil {
+							arg = st.Val
+						}
+					}
+				}
+				switch a := arg.(type) {
 				case *ssa.Alloc:
 				case *ssa.Parameter:
 					if !c.builderParam(caller, paramIndex(caller, a), seen) {
